@@ -38,7 +38,21 @@ def programs():
       'repeat': program([phase('r1', beh('RC'), o=opts(limit=3), plugs=('x',)), P('q1')]),
       'subtest': program([subtest('sub1', [P('a1', plugs=('x',)), P('b1')]), P('c1')]),
       'start': program([P('p1', plugs=('x',)), group('g1', [], [P('m1')], [P('t1')])], start=P('st')),
+      # the last setup node is itself a group: an abort during its (protected) teardown leaves setup complete
+      'nested': program([group('g1', [P('s1', plugs=('x',)), group('g0', [], [P('sm')], [P('t0')])],
+                               [P('m1')], [P('t1')]), P('after')]),
   }
+
+
+# per program: (setup phases, first main phase, teardown phases) of every group.  A group with setup
+# phases counts as entered when every setup phase has a record with a non-terminal result ("If all
+# setup nodes of a PhaseGroup complete without a terminal result"), one without when its first main
+# body started.
+GROUPS = {
+    'group': [(('s1',), 'm1', ('t1', 't2'))],
+    'start': [((), 'm1', ('t1',))],
+    'nested': [((), 'sm', ('t0',)), (('s1', 'sm', 't0'), 'm1', ('t1',))],
+}
 
 
 SCRIPTS = {
@@ -47,6 +61,7 @@ SCRIPTS = {
     'repeat': {'r1': 'RRC', 'q1': 'C'},
     'subtest': {'a1': 'C', 'b1': 'C', 'c1': 'C'},
     'start': {'st': 'C', 'p1': 'C', 'm1': 'C', 't1': 'C'},
+    'nested': {'s1': 'C', 'sm': 'C', 't0': 'C', 'm1': 'C', 't1': 'C', 'after': 'C'},
 }
 
 
@@ -196,13 +211,26 @@ def judge(prog_name, naborts, box, failure):
       bad.append('outcome ABORTED without any abort')
   if box.get('ncb') != 1:
     bad.append('output callbacks received the record %s times' % box.get('ncb'))
-  # teardown of an entered group still runs (single abort)
-  if naborts == 1 and prog_name in ('group', 'start'):
-    entered = first('body', lambda e: e[1] == 'm1') is not None
-    for t in [n for n in SCRIPTS[prog_name] if n.startswith(TD_PREFIX)]:
-      cnt = sum(1 for e in ev if e[0] == 'body' and e[1] == t)
-      if entered and cnt != 1:
-        bad.append('teardown phase of an entered group ran %d times after a single abort' % cnt)
+  # teardown of an entered group still runs (single abort); a group whose setup did not complete
+  # runs neither main nor teardown
+  if naborts == 1 and prog_name in GROUPS and rec is not None:
+    from vf import build
+    res_of = {}
+    for p in rec.phases:
+      res_of.setdefault(p.name, build.result_kind(p.result))
+    for setup, main1, tds in GROUPS[prog_name]:
+      if setup:
+        entered = all(res_of.get(n) in ('CONTINUE', 'FAIL_AND_CONTINUE') for n in setup)
+        reached = setup[0] in res_of or first('body', lambda e: e[1] == setup[0]) is not None
+      else:
+        entered = first('body', lambda e: e[1] == main1) is not None
+        reached = entered
+      for t in tds:
+        cnt = sum(1 for e in ev if e[0] == 'body' and e[1] == t)
+        if entered and cnt != 1:
+          bad.append('teardown phase of an entered group ran %d times after a single abort' % cnt)
+        if setup and reached and not entered and cnt:
+          bad.append('teardown phase of a group ran although its setup did not complete')
   plugs_new = [e for e in ev if e[0] == 'plug' and e[1] == 'new']
   plugs_td = [e for e in ev if e[0] == 'plug' and e[1] == 'teardown']
   if len(plugs_new) != len(plugs_td):
@@ -314,7 +342,7 @@ def main(chk):
   from vf import build, explore  # noqa: F401
   jobs = []
   combos = [('group', 'sigint', 1), ('group', 'thread', 1), ('plain', 'sigint', 1), ('group', 'sigint', 2),
-            ('repeat', 'thread', 1), ('start', 'sigint', 1), ('subtest', 'thread', 1)]
+            ('repeat', 'thread', 1), ('start', 'sigint', 1), ('subtest', 'thread', 1), ('nested', 'thread', 1)]
   bound = 1
   cap = 6000 if quick else 60000
   for prog_name, source, n in combos:
